@@ -187,11 +187,12 @@ inline RefHeader ref_read(const std::string& text, const std::string& stop_kw)
 }
 
 // ------------------------------------------------------------------------------------------------ mutations
-enum Op { OP_DEL = 0, OP_DUP, OP_TRUNC_LINE, OP_TRUNC_BYTE, OP_VALUE, OP_INDEX, OP_KEYWORD, OP_ALIAS, OP_NONE };
+// OP_SWAP (exchange the physical line with the next one) was added after OP_NONE so that the numbers in stored case strings keep their meaning
+enum Op { OP_DEL = 0, OP_DUP, OP_TRUNC_LINE, OP_TRUNC_BYTE, OP_VALUE, OP_INDEX, OP_KEYWORD, OP_ALIAS, OP_NONE, OP_SWAP };
 inline const char* op_name(int op)
 {
-  static const char* n[] = { "delete_line", "duplicate_line", "truncate_at_line", "truncate_at_byte", "replace_value", "change_index", "respell_keyword", "alias", "none" };
-  return n[op];
+  static const char* n[] = { "delete_line", "duplicate_line", "truncate_at_line", "truncate_at_byte", "replace_value", "change_index", "respell_keyword", "alias", "none", "swap_with_next_line" };
+  return (op >= 0 && op <= OP_SWAP) ? n[op] : "none";
 }
 struct Mut
 {
@@ -277,6 +278,10 @@ inline bool apply_lines(std::vector<std::string>& lines, bool& final_nl, const M
     {
     case OP_DEL: lines.erase(lines.begin() + m.line); return true;
     case OP_DUP: lines.insert(lines.begin() + m.line, lines[m.line]); return true;
+    case OP_SWAP:
+      if (m.line + 1 >= (int)lines.size() || lines[m.line] == lines[m.line + 1]) return false;
+      std::swap(lines[m.line], lines[m.line + 1]);
+      return true;
     case OP_TRUNC_LINE:
       lines.resize(m.line + 1);
       final_nl = m.arg == 0;
